@@ -44,6 +44,8 @@ var allowedExtra = map[string]bool{
 	"math/bits":       true,
 	"sort":            true,
 	"math":            true,
+	"maps":            true,
+	"iter":            true,
 }
 
 func (p *Program) interpretedPkg(path string) bool { return interpretedPkgs[path] }
